@@ -18,6 +18,13 @@ func (s *Server) backgroundExpiring(wg *sync.WaitGroup) {
 	s.loopUntilServerStops(bgExpireDelay, func() {
 		s.mu.LockLowPriority()
 		defer s.mu.Unlock()
+		if s.config.followHost() != "" {
+			// A follower must not expire anything on its own clock: the leader
+			// logs a DEL / DELHOOK for every expiry and the follower applies it.
+			// A lagging follower that expired an object by itself would drop a
+			// later PERSIST, EXPIRE or FSET for it and diverge from its leader.
+			return
+		}
 		now := time.Now()
 		s.backgroundExpireObjects(now)
 		s.backgroundExpireHooks(now)
